@@ -159,6 +159,7 @@ STMTS = [
     "echo ${'HOME'}", "x = -1", "f(*a, **k)", "a if b else c", "x = y = 0", "return_value = not x", "@(cmd) arg", "echo hi &", "print(f'{{x}}')",
     # macros: the raw text handed to the macro is part of the tree
     "timeit!(r = !(ls   -la);   r.rtn   ==   0)", "f!(x  [1,  2],  y)", "echo! a   b  'c'",
+    'f!(x = """a\nb"""   + 1,  y)',  # a token spanning lines inside a macro body
 ]
 
 
